@@ -30,19 +30,21 @@ fn canonical(resp: &async_graphql::Response) -> (J, Vec<String>) {
 pub fn main() {
     let mut run = Run::from_args(
         "exploration",
-        "generated queries (static S1 and generated dynamic schemas) with 0-2 injected resolver failures at nullable and \
-         non-null positions; every resolver awaits a vsched gate; ALL completion orders are enumerated by DFS when the \
+        "generated queries (static S1 and generated dynamic schemas) with 0-3 injected resolver failures at nullable and \
+         non-null positions (anywhere, among siblings of one parent, in different items of one list, on a response key \
+         that merges several field nodes); every resolver awaits a vsched gate; ALL completion orders are enumerated by DFS when the \
          schedule space is small (cap 300 quick / 2000 thorough schedules per case, exhaustive flag per case), plus LIFO \
          and seeded random orders; all runs of a case must agree on data and on the multiset of (path, locations, \
          message) errors. Non-trivial = case with >= 2 distinct schedules and at least one branch point; distinct by \
          (case hash, schedule)",
     );
     run.assume("resolvers are deterministic functions of (parent, field, arguments): the data world guarantees it");
-    let cases = run.scale(300, 12_000);
+    let cases = run.scale(8_000, 120_000);
     let cap = run.scale(300, 2000) as usize;
     run.set_floors(2000, 300);
     run.require_counter("cases_with_faults");
     run.require_counter("cases_fully_enumerated");
+    run.require_counter("cases_with_2plus_faults");
     let shards = n_shards(&run);
     let run = &run;
     std::thread::scope(|sc| {
@@ -76,16 +78,99 @@ pub fn main() {
                     if base.request_error.is_some() || (base.merged_groups > 0 && !run.feature("repeated_key")) {
                         continue;
                     }
-                    // 0-2 resolver failures at field positions
-                    let fields: Vec<&String> = base.calls.iter().map(|c| &c.path).collect();
-                    let nf = r.below(3).min(fields.len());
-                    let mut faults = vec![];
-                    for _ in 0..nf {
-                        faults.push(((*r.pick(&fields)).clone(), Fault::Err));
+                    // Resolver failures at field positions. Interactions between failures are local, so besides
+                    // 0-2 failures anywhere the placement is aimed: siblings of one parent, different items of one
+                    // list (an item failing at a non-null position cancels its list; what the other items recorded
+                    // must not depend on who finished first), and a response key that merges several field nodes.
+                    let paths: Vec<&String> = base.calls.iter().map(|c| &c.path).collect();
+                    let mut faults: Vec<(String, Fault)> = vec![];
+                    let strategy = r.below(5);
+                    run.count(["faults_anywhere", "faults_anywhere", "faults_siblings", "faults_two_list_items", "faults_merged_key"][strategy as usize], 1);
+                    match strategy {
+                        0 | 1 => {
+                            let nf = r.below(3).min(paths.len());
+                            for _ in 0..nf {
+                                faults.push(((*r.pick(&paths)).clone(), Fault::Err));
+                            }
+                        }
+                        2 => {
+                            // 2-3 failing siblings below one parent
+                            let parents: Vec<&String> = {
+                                let mut m: std::collections::BTreeMap<&String, usize> = Default::default();
+                                for c in &base.calls {
+                                    *m.entry(&c.parent_path).or_insert(0) += 1;
+                                }
+                                m.into_iter().filter(|(_, n)| *n >= 2).map(|(p, _)| p).collect()
+                            };
+                            if !parents.is_empty() {
+                                let parent = *r.pick(&parents);
+                                let sibs: Vec<&String> = base.calls.iter().filter(|c| &c.parent_path == parent).map(|c| &c.path).collect();
+                                for _ in 0..(2 + r.below(2)) {
+                                    faults.push(((*r.pick(&sibs)).clone(), Fault::Err));
+                                }
+                            }
+                        }
+                        3 => {
+                            // one failure in each of two (or three) different items of the same list
+                            let item_of = |p: &str| -> Option<(String, String)> {
+                                let segs: Vec<&str> = p.split('.').collect();
+                                let k = segs.iter().position(|s| s.chars().all(|c| c.is_ascii_digit()))?;
+                                Some((segs[..k].join("."), segs[k].to_string()))
+                            };
+                            let mut lists: std::collections::BTreeMap<String, std::collections::BTreeMap<String, Vec<&String>>> = Default::default();
+                            for c in &base.calls {
+                                if let Some((list, idx)) = item_of(&c.path) {
+                                    lists.entry(list).or_default().entry(idx).or_default().push(&c.path);
+                                }
+                            }
+                            let multi: Vec<&std::collections::BTreeMap<String, Vec<&String>>> = lists.values().filter(|m| m.len() >= 2).collect();
+                            if !multi.is_empty() {
+                                // items in index order; the earliest chosen item preferably fails at a non-null
+                                // position (its error propagates to the list), the later ones at nullable positions
+                                // (their errors are recorded in place)
+                                let chosen = *r.pick(&multi);
+                                let mut idxs: Vec<&String> = chosen.keys().collect();
+                                idxs.sort_by_key(|k| k.parse::<usize>().unwrap_or(0));
+                                let n = (2 + r.below(2)).min(idxs.len());
+                                let start = r.below(idxs.len() - n + 1);
+                                let nonnull_of = |p: &String| -> bool {
+                                    base.calls
+                                        .iter()
+                                        .find(|c| &c.path == p)
+                                        .and_then(|c| ts.field(&c.parent_ty, &c.field))
+                                        .map(|f| f.ty.is_nonnull())
+                                        .unwrap_or(false)
+                                };
+                                for k in 0..n {
+                                    let it = &chosen[idxs[start + k]];
+                                    let want_nonnull = k == 0;
+                                    let pref: Vec<&String> = it.iter().copied().filter(|p| nonnull_of(p) == want_nonnull).collect();
+                                    let pool: &Vec<&String> = if !pref.is_empty() && r.chance(3, 4) { &pref } else { it };
+                                    faults.push(((*r.pick(pool)).clone(), Fault::Err));
+                                }
+                            }
+                        }
+                        _ => {
+                            // a failing response key that merges several field nodes, plus 1-2 failures elsewhere
+                            let merged: Vec<&String> = base.calls.iter().filter(|c| c.field_ids.len() > 1).map(|c| &c.path).collect();
+                            if !merged.is_empty() {
+                                faults.push(((*r.pick(&merged)).clone(), Fault::Err));
+                                for _ in 0..(1 + r.below(2)) {
+                                    faults.push(((*r.pick(&paths)).clone(), Fault::Err));
+                                }
+                            } else if !paths.is_empty() {
+                                faults.push(((*r.pick(&paths)).clone(), Fault::Err));
+                            }
+                        }
                     }
+                    faults.sort_by(|a, b| a.0.cmp(&b.0));
+                    faults.dedup_by(|a, b| a.0 == b.0);
                     if !faults.is_empty() {
                         case.world = case.world.with_faults(&faults);
                         run.count("cases_with_faults", 1);
+                        if faults.len() >= 2 {
+                            run.count("cases_with_2plus_faults", 1);
+                        }
                     }
                     one_case(run, &schema, &case, &mut r, cap);
                 }
